@@ -16,6 +16,41 @@ import vp
 FEATURES = ['"json_files"', '"icu_compiled_data"', '"cookie"', '"ssr"', '"interpolate_display"', '"track_locale_files"',
             '"plurals"', '"format_datetime"', '"format_nums"', '"format_list"', '"format_currency"']
 
+ST_EXEC = r'''
+// A single-threaded executor: everything the reactive system spawns (effects, also the "isomorphic" ones) runs on this thread,
+// and only when the executor is polled.  The harness replays SEQUENTIAL behaviours; with a thread pool an effect of the library can
+// read a signal at the very moment the next step writes it, and reactive_graph (which takes its locks without blocking) then
+// reports a signal as "disposed" - a race of the harness' own making.
+mod st_exec {
+    use futures::executor::{LocalPool, LocalSpawner};
+    use futures::task::LocalSpawnExt;
+    use std::cell::RefCell;
+    thread_local! {
+        static POOL: RefCell<LocalPool> = RefCell::new(LocalPool::new());
+        static SPAWNER: LocalSpawner = POOL.with(|p| p.borrow().spawner());
+    }
+    pub struct SingleThread;
+    impl any_spawner::CustomExecutor for SingleThread {
+        fn spawn(&self, fut: any_spawner::PinnedFuture<()>) {
+            SPAWNER.with(|s| s.spawn_local(fut).expect("spawn"));
+        }
+        fn spawn_local(&self, fut: any_spawner::PinnedLocalFuture<()>) {
+            SPAWNER.with(|s| s.spawn_local(fut).expect("spawn_local"));
+        }
+        fn poll_local(&self) {
+            POOL.with(|p| {
+                if let Ok(mut p) = p.try_borrow_mut() {
+                    p.run_until_stalled();
+                }
+            });
+        }
+    }
+    pub fn init() {
+        let _ = any_spawner::Executor::init_custom_executor(SingleThread);
+    }
+}
+'''
+
 MAIN_PRELUDE = r'''#![allow(warnings)]
 leptos_i18n::load_locales!();
 use i18n::*;
@@ -53,6 +88,7 @@ fn esc(s: &str) -> String {
 
 fn emit(id: usize, f: impl FnOnce() -> String) {
     let r = std::panic::catch_unwind(std::panic::AssertUnwindSafe(f));
+    any_spawner::Executor::poll_local();
     match r {
         Ok(s) => println!("{{\"call\":{},\"outcome\":\"Ok\",\"out\":\"{}\"}}", id, esc(&s)),
         Err(e) => {
@@ -119,9 +155,11 @@ def main_source(project):
     if project.get("needs_ctx"):
         lines.append("thread_local! { static CTX: std::cell::Cell<Option<leptos_i18n::I18nContext<Locale>>> = const { std::cell::Cell::new(None) }; }\n")
     lines.append(project.get("extra_items", ""))
+    if project.get("needs_ctx"):
+        lines.append(ST_EXEC)
     lines.append("fn main() {\n    std::panic::set_hook(Box::new(|_| {}));\n")
     if project.get("needs_ctx"):
-        lines.append("    let _ = any_spawner::Executor::init_futures_executor();\n    let owner = Owner::new();\n    owner.set();\n"
+        lines.append("    st_exec::init();\n    let owner = Owner::new();\n    owner.set();\n"
                      "    let opts = leptos_i18n::context::I18nContextOptions::<Locale>::default().enable_cookie(false)"
                      ".ssr_lang_header_getter(leptos_i18n::context::UseLocalesOptions::default().ssr_lang_header_getter(|| None));\n"
                      "    let ctx = leptos_i18n::context::init_i18n_context_with_options::<Locale>(opts);\n    CTX.with(|c| c.set(Some(ctx)));\n")
@@ -191,7 +229,7 @@ def build_and_run(run, projects, tag="", timeout=3000, expect_fail=False):
                         except Exception:
                             pass
                 res["rc"] = q.returncode
-                res["stderr"] = q.stderr[-2000:]
+                res["stderr"] = q.stderr[-8000:]
             except subprocess.TimeoutExpired:
                 res["rc"] = 124
                 res["stderr"] = "timeout"
